@@ -198,6 +198,16 @@ func setField(name string, field reflect.Value, val reflect.Value, checkSlice bo
 		dereferences++
 	}
 
+	// A field (or slice element) of a defined type, such as `type ID string`,
+	// receives the value converted to that type.
+	if val.Type() != typ && val.Kind() == typ.Kind() && val.Type().ConvertibleTo(typ) {
+		switch typ.Kind() {
+		case reflect.Struct, reflect.Slice:
+		default:
+			val = val.Convert(typ)
+		}
+	}
+
 	ptrVal := val
 
 	for dereferences != 0 {
